@@ -137,7 +137,7 @@ func RoutePatternMatch(path, pattern string, cfg ...Config) bool {
 	}
 
 	if config.UnescapePath {
-		path = string(fasthttp.AppendUnquotedArg(nil, []byte(path)))
+		path = string(unescapePath(nil, []byte(path)))
 	}
 	if path == "" {
 		path = "/"
@@ -190,6 +190,15 @@ func RoutePatternMatch(path, pattern string, cfg ...Config) bool {
 	patternPretty = RemoveEscapeCharBytes(patternPretty)
 
 	return string(patternPretty) == path
+}
+
+// unescapePath percent-decodes a request path. A '+' in a path is a plus sign, not an encoded space
+// (fasthttp.AppendUnquotedArg alone would decode it like a form value).
+func unescapePath(dst, src []byte) []byte {
+	if bytes.IndexByte(src, '+') >= 0 {
+		src = bytes.ReplaceAll(src, []byte("+"), []byte("%2B"))
+	}
+	return fasthttp.AppendUnquotedArg(dst, src)
 }
 
 func (parser *routeParser) reset() {
